@@ -59,9 +59,14 @@ Apply(e, m) ==
          [] OTHER -> [m |-> m, rv |-> NIL, rok |-> 0, ok |-> TRUE]
 
 More == l <= Len(Trace)
+\* C09 inside the search: a loaded value may be installed only if no write, invalidation or automatic removal of the
+\* key took effect since the load STARTED (the driver logs "ldstart" from inside the loader, which runs after the
+\* in-flight record was created) - such loads are marked dirty.  Only the caller that ran the loader installs.
+Dirty(pd, ks, except) == [c \in DOMAIN pd |-> IF c # except /\ pd[c] # None /\ pd[c].op = "ldget" /\ pd[c].started /\ ~pd[c].inst /\ pd[c].k \in ks
+                                               THEN [pd[c] EXCEPT !.dirty = TRUE] ELSE pd[c]]
 Call == /\ More /\ Trace[l].t = "call"
         /\ pend[Trace[l].c] = None
-        /\ pend' = [pend EXCEPT ![Trace[l].c] = [op |-> Trace[l].op, lin |-> FALSE, rv |-> NIL, rok |-> 0, inst |-> FALSE, miss |-> FALSE, ri |-> Trace[l].ri]]
+        /\ pend' = [pend EXCEPT ![Trace[l].c] = [op |-> Trace[l].op, lin |-> FALSE, rv |-> NIL, rok |-> 0, inst |-> FALSE, miss |-> FALSE, dirty |-> FALSE, started |-> FALSE, k |-> Trace[l].k, ri |-> Trace[l].ri]]
         /\ l' = l + 1 /\ UNCHANGED map
 
 \* the return record carries what the callback saw / did, so the operation is applied with the return's fields;
@@ -71,12 +76,13 @@ Lin(c) == /\ More /\ Trace[l].t # "call"
           /\ LET a == Apply(Trace[pend[c].ri], map)
              IN /\ a.ok
                 /\ map' = a.m
-                /\ pend' = [pend EXCEPT ![c].lin = TRUE, ![c].rv = a.rv, ![c].rok = a.rok, ![c].miss = (map[Trace[pend[c].ri].k] = NIL)]
+                /\ pend' = Dirty([pend EXCEPT ![c].lin = TRUE, ![c].rv = a.rv, ![c].rok = a.rok, ![c].miss = (map[Trace[pend[c].ri].k] = NIL)],
+                                 IF a.m # map THEN {Trace[pend[c].ri].k} ELSE {}, c)
           /\ UNCHANGED l
 
 \* second linearisation point of a loader-backed Get that missed: the loaded value is installed unless it was superseded
 Install(c) == /\ More /\ Trace[l].t # "call"
-              /\ pend[c] # None /\ pend[c].lin /\ pend[c].op = "ldget" /\ ~pend[c].inst /\ pend[c].miss
+              /\ pend[c] # None /\ pend[c].lin /\ pend[c].op = "ldget" /\ ~pend[c].inst /\ pend[c].miss /\ pend[c].started /\ ~pend[c].dirty
               /\ map' = [map EXCEPT ![Trace[pend[c].ri].k] = Trace[pend[c].ri].rv]
               /\ pend' = [pend EXCEPT ![c].inst = TRUE]
               /\ UNCHANGED l
@@ -92,7 +98,12 @@ Ret == /\ More /\ Trace[l].t = "ret"
 Auto == /\ More /\ Trace[l].t = "auto"
         /\ map[Trace[l].k] = Trace[l].v
         /\ map' = [map EXCEPT ![Trace[l].k] = NIL]
-        /\ l' = l + 1 /\ UNCHANGED pend
+        /\ pend' = Dirty(pend, {Trace[l].k}, -1)
+        /\ l' = l + 1
+
+LdStart == /\ More /\ Trace[l].t = "ldstart"
+           /\ pend' = [pend EXCEPT ![Trace[l].c] = IF @ # None /\ @.op = "ldget" THEN [@ EXCEPT !.started = TRUE] ELSE @]
+           /\ l' = l + 1 /\ UNCHANGED map
 
 \* a quiescent point between histories: nothing pending; "size" carries the reported size (checked when >= 0)
 Reset == /\ More /\ Trace[l].t = "reset"
@@ -101,7 +112,7 @@ Reset == /\ More /\ Trace[l].t = "reset"
          /\ map' = [k \in KeysT |-> NIL]
          /\ l' = l + 1 /\ UNCHANGED pend
 
-Next == Call \/ Ret \/ Auto \/ Reset \/ (\E c \in Clients : Lin(c) \/ Install(c))
+Next == Call \/ Ret \/ Auto \/ Reset \/ LdStart \/ (\E c \in Clients : Lin(c) \/ Install(c))
 Spec == Init /\ [][Next]_vars
 
 HighWater == TLCSet(1, IF TLCGet(1) > l THEN TLCGet(1) ELSE l)
